@@ -61,7 +61,7 @@ def worker_env(numba_threads=1, extra=None):
     env["NUMBA_NUM_THREADS"] = str(numba_threads)
     env["OMP_NUM_THREADS"] = str(numba_threads)
     env["OMP_WAIT_POLICY"] = "passive"
-    env["POLARS_MAX_THREADS"] = "2"
+    env["POLARS_MAX_THREADS"] = "8"  # a tiny polars pool dead-locked when polars was called from several Python threads
     env["ARROW_NUM_THREADS"] = "2" if "ARROW_NUM_THREADS" not in env else env["ARROW_NUM_THREADS"]
     env["PYTHONWARNINGS"] = "ignore"
     env["PYTHONDONTWRITEBYTECODE"] = "1"
